@@ -9,7 +9,7 @@ from lib import cmds, common, devices
 from lib.common import Driver
 from props import c01
 
-TARGETS = ["ScsiVerif.Props.C17"]
+TARGETS = ["ScsiVerif.Props.C17", "ScsiVerif.Props.C17b"]
 NEEDS_GEN = True
 
 
